@@ -436,9 +436,15 @@ def run_with_watchdog(fn, tasks, per_task_s: int, ctx=None,
                     results.append((t, _lost(t, "died", per_task_s)))
                 else:
                     todo.append(t)
-        if hung or broken:
+        # a case that reported something may have left threads of the
+        # library blocked in its worker (non-daemon: the worker process
+        # would never exit and a waiting shutdown would never return)
+        n0 = len(results) - len(futs) + len(todo)
+        suspicious = any(r.get("bad") for _, r in results[n0:])
+        if hung or broken or suspicious:
             ex.kill()
-        ex.shutdown(wait=not (hung or broken), cancel_futures=True)
+        ex.shutdown(wait=not (hung or broken or suspicious),
+                    cancel_futures=True)
         if broken and not alone:
             alone = True  # identify the culprit: one task per pool from now
         todo = todo + rest
